@@ -4,6 +4,9 @@ files) and a cheap shape digest (distinct-case counting).
 """
 
 import hashlib
+import re
+
+_ADDRESS = re.compile(r'0x[0-9a-fA-F]+')
 
 
 def _payload(p):
@@ -53,7 +56,9 @@ def _val(x):
     if x is None or isinstance(x, (bool, int, float, str)):
         return repr(x)
     if isinstance(x, BaseException):
-        return type(x).__name__ + ":" + str(x)
+        # (the message of an exception raised by asyncio itself may show an
+        # object's address)
+        return type(x).__name__ + ":" + _ADDRESS.sub('0x?', str(x))
     return type(x).__name__
 
 
